@@ -62,6 +62,7 @@ func TestC07(t *testing.T) {
 	st := StatsFor("C07")
 	rapid.Check(t, func(t *rapid.T) {
 		v := NewVestWorld(nil)
+		v.Tx = DrawTxMode(t)
 		nowS := nsTime(v.NowNs).Unix()
 		// schedule: elapsed fraction num/den with small den, duration den*q seconds
 		den := []int64{2, 3, 4, 5, 7, 8, 10, 100, 1000, 997}[rapid.IntRange(0, 9).Draw(t, "den")]
@@ -356,6 +357,6 @@ func TestC07(t *testing.T) {
 		if nd > 1 {
 			classes["multi_denom"] = true
 		}
-		st.Case(nontrivial, map[string]interface{}{"history": hist}, classList(classes)...)
+		st.Case(nontrivial, map[string]interface{}{"history": hist}, append(classList(classes), v.TxClasses()...)...)
 	})
 }
